@@ -2775,10 +2775,7 @@ class Env(cabc.MutableMapping):
         """
         if key in local:
             return local[key]
-        try:
-            return self[key]
-        except KeyError:
-            return NotImplemented
+        return NotImplemented
 
     @contextlib.contextmanager
     def swap(self, other=None, overlay=None, **kwargs):
